@@ -1,5 +1,5 @@
 #![allow(dead_code)]
 use parity_scale_codec::{Compact, Decode, Encode};
-#[derive(parity_scale_codec::CompactAs)]
-pub enum T { A(u32) }
+#[derive(Encode, Decode)]
+pub union T { a: u8, b: u16 }
 fn main() {}
